@@ -129,9 +129,13 @@ package handlers
 //@ func (a *Application) logRequestResult
 //@   property C14
 //@   trusted
+// C19: a translated request is reported exactly once, as a success iff no error answer was given to the client
 //@ func (a *Application) recordTranslatorMetrics
-//@   property C14
-//@   trusted
+//@   property C14 C19
+//@   safety
+//@   requires a != nil && a.statsCollector != nil && trans != nil && pr != nil && pr.stats != nil
+//@   modifies gvar trCount, gvar trSuccess
+//@   ensures trCount == old(trCount) + 1 && trSuccess == !pr.hadError
 
 //@ func (a *Application) prepareProxyContext
 //@   property C14
@@ -218,10 +222,12 @@ package handlers
 
 // a backend's own error answer keeps its status on the way to the client
 //@ func (a *Application) handleNonStreamingBackendError
-//@   property C05
+//@   property C05 C19
 //@   safety
 //@   requires a != nil && w != nil && recorder != nil && recorder.body != nil && pr != nil && pr.requestLogger != nil && trans != nil
-//@   modifies ghost started, ghost status, ghost(w).hdr[all], gvar lastEncoded, ghost encW, gvar unflushed
+//@   modifies ghost started, ghost status, ghost(w).hdr[all], gvar lastEncoded, ghost encW, gvar unflushed, pr.hadError
+//@   ensures pr.hadError
+//@   replay handlers_translation_metrics_success
 //@   ensures ghost(w).started && (!old(ghost(w).started) ==> ghost(w).status == recorder.status)
 
 //@ func (a *Application) writeTranslatedSuccessResponse
@@ -288,10 +294,11 @@ package handlers
 // (C20: the proxy goroutine writes the backend's error body into an unbuffered pipe; before this function waits for
 // that goroutine it must have consumed the pipe completely, otherwise the two block each other forever)
 //@ func (a *Application) handleStreamingBackendError
-//@   property C05 C20
+//@   property C05 C19 C20
 //@   safety
 //@   requires a != nil && w != nil && pipeReader != nil && streamRecorder != nil && pr != nil && pr.requestLogger != nil && trans != nil
-//@   modifies ghost started, ghost status, ghost(w).hdr[all], gvar lastEncoded, ghost encW, ghost remaining
+//@   modifies ghost started, ghost status, ghost(w).hdr[all], gvar lastEncoded, ghost encW, ghost remaining, pr.hadError
+//@   ensures pr.hadError
 //@   ensures ghost(w).started && (!old(ghost(w).started) ==> ghost(w).status == streamRecorder.status)
 //@   ensures ghost(pipeReader).remaining == 0
 
